@@ -20,6 +20,7 @@ type Rendering struct {
 	Libs      []string
 	Calls     map[string]int
 	Err       error
+	Dot       Value // the abstract dot after the run (read with Peek only)
 }
 
 // Enumerate renders unit def of a set under every valuation the oracle discovers.
@@ -39,7 +40,7 @@ func (s *Static) EnumerateStub(setName, def string, stub map[string]bool, cfg *C
 		x := &Exec{W: w, Set: set, Stub: stub}
 		dot := mkDot(w)
 		text, rerr := x.Render(def, dot)
-		r := &Rendering{Set: setName, Unit: def, Text: text, Valuation: or.ValuationString(), Choices: or.Valuation(), Calls: x.Calls, Err: rerr}
+		r := &Rendering{Set: setName, Unit: def, Text: text, Valuation: or.ValuationString(), Choices: or.Valuation(), Calls: x.Calls, Err: rerr, Dot: dot}
 		for l := range w.Libs {
 			r.Libs = append(r.Libs, l)
 		}
